@@ -14,6 +14,7 @@ ENGINES["C12"] = "engine_clock"
 ENGINES["C13"] = "engine_clock"
 ENGINES["C16"] = "engine_signals"
 ENGINES["C17"] = "engine_stats"
+ENGINES["C09"] = "engine_pcm"
 ENGINES["C10"] = "engine_sizer"
 ENGINES["C11"] = "engine_sizer"
 
